@@ -63,3 +63,13 @@ def validation_gate(ctx):
     worlds = "400" if ctx.tier == "thorough" else "40"
     return ctx.correspond("h_validate", "Validate", tag="validate", nontrivial=r"^(v|t|cv|h) ",
                           env={"VERIF_VALIDATE_MODE": "", "VERIF_VALIDATE_WORLDS": worlds}, oracle_filter=UNSOUND)
+
+
+def power_gate(ctx):
+    """Sender eligibility, justification quorums and every threshold of the consensus core read the SCALED power table
+    (gpbft/powertable.go). The scaling facts are C08's theorems; their tie to the code is the `scaled` lines of h_quorum
+    (big-integer tables of every magnitude, Copy/Add aliasing, order preservation, sum = total), replayed here for the
+    properties that rest on them: a table whose scaled powers are not the model's is a failing input for them too."""
+    return ctx.correspond("h_quorum", "Quorum", tag="power", nontrivial=r"^scaled ",
+                          oracle_filter=r"SCALED-ORDER|scaled |reported total|one scaled power", diff_filter=r":: scaled ")
+
